@@ -44,6 +44,21 @@ def cases(rng, tier):
     N = 100 if tier == "quick" else 800
     for _ in range(3 if tier == "quick" else 20):
         yield ("generate", _small_angle_case(rng))
+    # a budget of exactly one sample (int, float): accepted, one joint map with coefficient ± the product of the kappas
+    for k, n_ in enumerate((1, 1.0, 1)):
+        p = workflow.gen_problem(rng, max_q=4, max_cuts=2, depth=5)
+        p.update(form="single" if k == 2 else "dict", N=n_, seed=rng.randrange(1 << 30), always_oracle=True)
+        yield ("generate", p)
+    # a reset, then the wire only as the second operand of two-qubit gates, then another reset that is not the last thing on the wire:
+    # both resets matter (written by the user on a used qubit, with a cut elsewhere)
+    for k in range(2):
+        instrs = [{"name": "h", "qubits": [0]}, {"name": "ry", "qubits": [1], "params": [0.9]}, {"name": "cx", "qubits": [0, 1]},
+                  {"name": "reset", "qubits": [1]}, {"name": "cx", "qubits": [0, 1]}] + ([{"name": "cz", "qubits": [0, 1]}] if k else []) + [
+                  {"name": "reset", "qubits": [1]}, {"name": "ry", "qubits": [1], "params": [0.4]}, {"name": "cx", "qubits": [1, 2]},
+                  {"name": "ry", "qubits": [2], "params": [0.3]}]
+        yield ("generate", {"nq": 3, "qregs": [3], "instrs": instrs, "labels": [0, 0, 1], "pool_idx": [0, 1],
+                            "obs": [{"l": "IZI", "p": 0}, {"l": "IZZ", "p": 0}, {"l": "ZZX", "p": 0}, {"l": "XIZ", "p": 0}], "idle": [], "part": [0, 0, 1],
+                            "form": "dict" if k == 0 else "single", "N": None, "seed": rng.randrange(1 << 30), "always_oracle": True})
     for _ in range(N):
         r0 = rng.random()
         if r0 < 0.12:
@@ -139,6 +154,11 @@ def _run(payload):
     CE.generate_qpd_weights = wrapper
     try:
         exps, coeffs = CE.generate_cutting_experiments(circuits, observables, Nv)
+    except ValueError as ex:
+        if "num_samples" in str(ex) and Nv >= 1:
+            # a legitimate budget (at least one sample, or infinity) is not a malformed request
+            raise RuntimeError(f"generate_cutting_experiments refused the valid budget num_samples={Nv!r}: {ex}")
+        raise
     finally:
         CE.generate_qpd_weights = real_gqw
         np.random.choice = old
@@ -183,6 +203,8 @@ def model_line(kind, payload):
         res, line = _real(payload)
     except ValueError:
         res, line = {"error": "ValueError"}, None
+    except RuntimeError as ex:
+        res, line = {"error": "Other:" + str(ex)}, None
     _cache[_key(payload)] = res
     if line is None:
         # the real pipeline refused before reaching experiment generation (idle-qubit observable etc.): nothing to model
@@ -207,6 +229,8 @@ def model_canon(kind, payload, out):
 
 
 def compare(kind, payload, real, model):
+    if str(real.get("error", "")).startswith("Other:"):
+        return real["error"][6:]
     if "error" in real:
         return None  # refused upstream (partition_problem); covered by C10/C18
     if "error" in model:
